@@ -9,7 +9,9 @@ import vf
 
 MIB = 1 << 20
 CHUNK = MIB                        # the kit's filer runs with -maxMB=1
-LIMITS = [0, 512, CHUNK + 512]     # SaveToFilerLimit of the three driver processes
+# one driver process per configuration (SaveToFilerLimit, cipher)
+CONFIGS_QUICK = [(0, False), (512, False), (CHUNK + 512, False)]
+CONFIGS_MORE = [(CHUNK, False), (CHUNK + 1, False), (512, True)]
 MC_C = 3                           # chunk size of the byte-level model
 ALL_BUGS = {"S29", "S30", "inline1"}
 
@@ -35,11 +37,11 @@ def fail_offsets(limit, ck=CHUNK):
 class Gen:
     """Builds executions for one configuration (inline limit). Inputs only."""
 
-    def __init__(self, rng, limit):
-        self.rng, self.limit, self.execs = rng, limit, []
+    def __init__(self, rng, limit, cipher=False):
+        self.rng, self.limit, self.cipher, self.execs = rng, limit, cipher, []
 
     def begin(self, etc=False, ext=""):
-        self.cur = [{"ev": "reset", "limit": self.limit, "chunk": CHUNK, "etc": etc, "ext": ext}]
+        self.cur = [{"ev": "reset", "limit": self.limit, "cipher": self.cipher, "chunk": CHUNK, "etc": etc, "ext": ext}]
         self.s = 0
         self.execs.append(self.cur)
 
@@ -53,6 +55,7 @@ class Gen:
     def write(self, p, op, n, m=None, fail=-1, fm="", te=None, maxmb=0, kind="rand"):
         rng = self.rng
         m = m or rng.choice(["put", "put", "post", "postdir"])
+        fail = min(fail, n)
         if fail >= 0 and not fm:
             fm = rng.choice(["reader", "cut", "cutte", "abort"])
         if fail >= 0 and fail >= n and m == "put" and fm in ("cut", "abort"):
@@ -86,8 +89,8 @@ class Gen:
 BASES = ["absent", "put", "post", "append", "chunks", "nosize", "grpcappend", "inline"]
 
 
-def systematic(rng, limit, thorough):
-    g = Gen(rng, limit)
+def systematic(rng, limit, cipher, thorough):
+    g = Gen(rng, limit, cipher)
     sz = sizes(limit)
     small = [x for x in sz if x <= CHUNK + 1]
     # E1: every boundary size as the first write, by every method; overwritten by another size; then an append
@@ -111,8 +114,7 @@ def systematic(rng, limit, thorough):
     # E3: bodies that break off
     combos = [(fm, m, j, op, prior) for fm in ("reader", "cut", "cutte", "abort") for m in ("put", "post")
               for j in fail_offsets(limit) for op in ("set", "append") for prior in ("absent", "put", "nosize", "inline")]
-    if not thorough:
-        combos = rng.sample(combos, 36)
+    combos = rng.sample(combos, 160 if thorough else 24)
     for fm, m, j, op, prior in combos:
         n = rng.choice([x for x in sz if x > j] + [j + 1, j + 1000] + ([j] if fm in ("reader", "cutte") or m == "post" else []))
         g.begin()
@@ -159,9 +161,9 @@ def real_size(n, limit, rng, C=MC_C):
     return q * CHUNK + x
 
 
-def from_model(rng, limit, etc, hists):
+def from_model(rng, limit, cipher, etc, hists):
     """TLC-generated histories of FilerWriteImpl (model sizes) -> executions at real sizes"""
-    g = Gen(rng, limit)
+    g = Gen(rng, limit, cipher)
     for h in hists:
         g.begin(etc=etc)
         for op in h:
@@ -192,65 +194,77 @@ def run(ctx):
         return {"Paths": set(paths), "Sizes": sz or msz, "Fails": fl or mfl, "C": MC_C, "L": L, "Etc": etc,
                 "MaxOps": ops, "Bugs": set(bugs)}
 
-    # 1. model checking: the laws of layer A; layer B (the handler's procedure as repaired) refines layer A
-    mca = ctx.instance("MC_C25_A", "FilerWrite", "FilerWrite_mc.cfg",
-                       {"Paths": {"p1", "p2"}, "Sizes": {0, 1, 3}, "Fails": {0, 1}, "MaxOps": 4 if th else 3})
-    mcb = [ctx.instance("MC_C25_B%d" % i, "FilerWriteImpl", MC_B, bcons(L, etc, bugs, ops, sz=sz))
-           for i, (L, etc, bugs, ops, sz) in enumerate(
-               [(2, False, (), 3 if th else 2, None), (0, True, (), 2, None), (5, False, (), 2, None),
-                (0, False, {"inline1"}, 2, None)] +
-               ([(2, False, (), 4, {0, 1, 3, 4}), (2, False, (), 2, set(range(0, 11)))] if th else []))]
-    # 2. generators: one witness per (stored layout, request) of the repaired procedure; every history up to the
-    #    bound after which the procedure WITH the three defects reads back something else than the property says
-    mcfg = {0: (0, False), 512: (2, False), CHUNK + 512: (5, False)}
-    gw = {lim: ctx.instance("G2_C25_%d" % lim, "FilerWriteImpl", GEN_W, bcons(L, etc, (), 3 if th else 2, sz={0, 1, 2, 3, 4, 7}, fl={0, 1, 3, 4}))
-          for lim, (L, etc) in mcfg.items()}
-    gd = {(lim, etc): ctx.instance("GD_C25_%d_%d" % (lim, etc), "FilerWriteImpl", GEN_DIV, bcons(L, etc, ALL_BUGS, 2))
-          for lim, L, etc in [(0, 0, False), (512, 2, False), (CHUNK + 512, 5, False), (0, 0, True)]}
-    with ThreadPoolExecutor(max_workers=4) as pool:
-        futs = [pool.submit(ctx.model_check, mca, 1, 1500)] + [pool.submit(ctx.model_check, b, 1, 2400) for b in mcb]
-        fw = {k: pool.submit(ctx.generate, v, "W", 1, 2400) for k, v in gw.items()}
-        fd = {k: pool.submit(ctx.generate, v, "W", 1, 2400) for k, v in gd.items()}
-        for f in futs:
-            f.result()
-        hw = {k: f.result() for k, f in fw.items()}
-        hd = {k: f.result() for k, f in fd.items()}
-    if th:
-        # each defect alone is a counterexample of the refinement in the model
-        for bug, L, etc in [("S29", 0, False), ("S30", 0, False), ("inline1", 0, True)]:
-            ctx.model_check(ctx.instance("MCX_C25_" + bug, "FilerWriteImpl", MC_B, bcons(L, etc, {bug}, 2)),
-                            workers=2, expect_violation="Refines", label="defect %s alone breaks Refines" % bug)
-    for k, v in hd.items():
-        if not v:
-            raise vf.Infra("the model with the defects switched on predicts no divergence for %r" % (k,))
-    ctx.notes["model_histories"] = {"witnesses": {str(k): len(v) for k, v in hw.items()},
-                                    "divergent_with_defects": {str(k): len(v) for k, v in hd.items()}}
+    # C25_SKIP_MC=1 with --replay: only drive and judge the given script (mutant runs)
+    only_replay = bool(ctx.replay) and os.environ.get("C25_SKIP_MC") == "1"
+    hw, hd = {}, {}
+    mcfg = {0: (0, False), 512: (2, False), CHUNK + 512: (5, False)}      # inline limit -> (L, Etc) of the model, C = 3
+    if not only_replay:
+        # 1. model checking: the laws of layer A; layer B (the handler's procedure as repaired) refines layer A
+        mca = ctx.instance("MC_C25_A", "FilerWrite", "FilerWrite_mc.cfg",
+                           {"Paths": {"p1", "p2"}, "Sizes": {0, 1, 3}, "Fails": {0, 1}, "MaxOps": 3 if th else 2})
+        bconf = [(2, False, (), 3 if th else 2, None)]
+        if th:
+            bconf += [(0, True, (), 2, None), (5, False, (), 2, None), (0, False, {"inline1"}, 2, None),
+                      (2, False, (), 4, {0, 1, 3, 4}), (2, False, (), 2, set(range(0, 11)))]
+        mcb = [ctx.instance("MC_C25_B%d" % i, "FilerWriteImpl", MC_B, bcons(L, etc, bugs, ops, sz=sz))
+               for i, (L, etc, bugs, ops, sz) in enumerate(bconf)]
+        # 2. generators: one witness per (stored layout, request) of the repaired procedure; every history up to the
+        #    bound after which the procedure WITH the three defects reads back something else than the property says
+        #    (quick tier: the histories of the limit-512 model are also run, as inputs, under the other two limits)
+        gw = {lim: ctx.instance("G2_C25_%d" % lim, "FilerWriteImpl", GEN_W, bcons(L, etc, (), 3 if th else 2, sz={0, 1, 2, 3, 4, 7}, fl={0, 1, 3, 4}))
+              for lim, (L, etc) in mcfg.items() if th or lim == 512}
+        gd = {(lim, etc): ctx.instance("GD_C25_%d_%d" % (lim, etc), "FilerWriteImpl", GEN_DIV, bcons(L, etc, ALL_BUGS, 2))
+              for lim, L, etc in [(0, 0, False), (512, 2, False), (CHUNK + 512, 5, False), (0, 0, True)] if th or lim == 512 or etc}
+        with ThreadPoolExecutor(max_workers=4) as pool:
+            futs = [pool.submit(ctx.model_check, mca, 1, 1500)] + [pool.submit(ctx.model_check, b, 1, 2400) for b in mcb]
+            fw = {k: pool.submit(ctx.generate, v, "W", 1, 2400) for k, v in gw.items()}
+            fd = {k: pool.submit(ctx.generate, v, "W", 1, 2400) for k, v in gd.items()}
+            for f in futs:
+                f.result()
+            hw = {k: f.result() for k, f in fw.items()}
+            hd = {k: f.result() for k, f in fd.items()}
+        if not th:
+            hw[0] = hw[CHUNK + 512] = hw[512]
+            hd[(0, False)] = hd[(CHUNK + 512, False)] = hd[(512, False)]
+        if th:
+            # each defect alone is a counterexample of the refinement in the model
+            for bug, L, etc in [("S29", 0, False), ("S30", 0, False), ("inline1", 0, True)]:
+                ctx.model_check(ctx.instance("MCX_C25_" + bug, "FilerWriteImpl", MC_B, bcons(L, etc, {bug}, 2)),
+                                workers=2, expect_violation="Refines", label="defect %s alone breaks Refines" % bug)
+        for k, v in hd.items():
+            if not v:
+                raise vf.Infra("the model with the defects switched on predicts no divergence for %r" % (k,))
+        ctx.notes["model_histories"] = {"witnesses": {str(k): len(v) for k, v in hw.items()},
+                                        "divergent_with_defects": {str(k): len(v) for k, v in hd.items()}}
 
-    # 3. scripts, one per driver process (inline limit)
+    # 3. scripts, one per driver process (inline limit, cipher)
+    configs = CONFIGS_QUICK + (CONFIGS_MORE if th else [])
     scripts = {}
-    for lim in LIMITS:
+    for lim, cipher in configs:
         if ctx.replay:
             break
-        ex = systematic(rng, lim, th)
-        w = hw[lim]
-        ex += from_model(rng, lim, False, w if th and len(w) < 400 else rng.sample(w, min(len(w), 400 if th else 25)))
+        ex = systematic(rng, lim, cipher, th)
+        cap = 150 if th else 15
+        w = hw.get(lim, hw[512])          # histories are inputs: those of the limit-512 model also run under the other limits
+        ex += from_model(rng, lim, cipher, False, rng.sample(w, min(len(w), cap)))
         for (l2, etc), d in hd.items():
-            if l2 == lim:
-                ex += from_model(rng, lim, etc, d if th and len(d) < 400 else rng.sample(d, min(len(d), 400 if th else 25)))
-        if lim == CHUNK + 512 and not th:
+            if l2 == lim or (lim not in mcfg and l2 == 512):
+                ex += from_model(rng, lim, cipher, etc, rng.sample(d, min(len(d), cap)))
+        if (lim, cipher) not in CONFIGS_QUICK[:2] and not th:
             ex = rng.sample(ex, min(len(ex), 60))
-        scripts[lim] = os.path.join(ctx.out, "script_%d.ndjson" % lim)
-        with open(scripts[lim], "w") as f:
+        scripts[(lim, cipher)] = os.path.join(ctx.out, "script_%d_%d.ndjson" % (lim, cipher))
+        with open(scripts[(lim, cipher)], "w") as f:
             for e in ex:
                 for line in e:
                     f.write(json.dumps(line) + "\n")
     if ctx.replay:
-        lims = sorted({json.loads(x)["limit"] for x in open(ctx.replay) if '"ev":"reset"' in x.replace(" ", "")})
-        scripts = {lim: ctx.replay for lim in lims}
+        ctx.replay = os.path.abspath(ctx.replay)
+        resets = [json.loads(x) for x in open(ctx.replay) if '"ev":"reset"' in x.replace(" ", "")]
+        scripts = {k: ctx.replay for k in sorted({(r["limit"], bool(r.get("cipher", False))) for r in resets})}
     binp = ctx.build("c25")
     with ThreadPoolExecutor(max_workers=3) as pool:
-        futs = [pool.submit(ctx.drive, binp, ["--script", s, "--limit", lim], 2400, None, "trace_%d" % lim)
-                for lim, s in scripts.items()]
+        futs = [pool.submit(ctx.drive, binp, ["--script", s, "--limit", lim] + (["--cipher"] if cipher else []), 2400, None,
+                            "trace_%d_%d" % (lim, cipher)) for (lim, cipher), s in scripts.items()]
         traces = [f.result() for f in futs]
     trace = os.path.join(ctx.out, "trace_all.ndjson")
     with open(trace, "w") as f:
@@ -277,7 +291,7 @@ def run(ctx):
 
     ctx.judge("FilerWriteTrace", trace, "trace_base.cfg", {"Paths": {"p1", "p2"}, "Sizes": set(), "Fails": set(), "MaxOps": 0},
               nontrivial=nontrivial, mutate=mutate)
-    ctx.rule = ("executions = (a) systematic scripts per inline limit {0, 512, chunk+512} with chunk = 1 MiB: every size in "
+    ctx.rule = ("executions = (a) systematic scripts per inline limit {0, 512, chunk+512; thorough: also chunk, chunk+1, and 512 with encrypted chunks} with chunk = 1 MiB: every size in "
                 "{0, 1, limit-1, limit, limit+1, chunk-1, chunk, chunk+1, 2 chunk, 3 chunk+7} by PUT / multipart POST to the "
                 "path / POST to the directory, overwritten and appended to; appends onto files made by PUT, POST, append, "
                 "gRPC CreateEntry with and without FileSize, gRPC AppendToEntry, inline content, or absent; bodies breaking "
@@ -292,4 +306,4 @@ def run(ctx):
     ctx.assumptions += ["one request at a time (after a broken request the driver waits until the filer's handler has returned)",
                         "bodies are recognisable: the low nibble of every byte is the body's ordinal (at most 15 bodies per execution)",
                         "an error answer to a complete body is admitted with the file unchanged or fully written (e.g. 'append to small file is not supported yet')",
-                        "leveldb2 store, one volume server, no replication, no cipher"]
+                        "leveldb2 store, one volume server, no replication; chunk encryption (cipher) only in the thorough tier"]
